@@ -38,3 +38,14 @@ package indexed
 //@   loop 1: invariant bounds: -1 <= rangeindex && rangeindex < len(l.indexes)
 //@   loop 1: invariant keepwf: wfIndex(l.indexes, l.data) && len(items) == len(l.indexes)
 //@   ensures count: result1 == nil ==> len(result0) == len(l.indexes)
+
+// AllMapped: one result per element, in order (the extractor is a callback: an input).
+//@ func AllMapped
+//@   props C07
+//@   arith int
+//@   nosafe
+//@   requires wf: wfIndex(l.indexes, l.data)
+//@   purecallback extract
+//@   loop 1: invariant bounds: -1 <= rangeindex && rangeindex < len(l.indexes)
+//@   loop 1: invariant sized: len(results) == len(l.indexes) && fresh(results) && wfIndex(l.indexes, l.data)
+//@   ensures count: result1 == nil ==> len(result0) == len(l.indexes)
